@@ -57,7 +57,8 @@ def texts(ctx):
     out.append("#TITLE:" + "y" * 9000 + ";\n#ARTIST:z;")
     # fixed regression inputs (the repaired defects)
     out += ["#TITLE;", "junk\n#TITLE:a;", "#title:a;#TITLE:b;#Title;", "#VERSION:0.83;#TITLE:a;\n#NOTEDATA:;#NOTES:0000;#AFTER:1;",
-            "#version:0.7;#ATTACKS:a:b:c;#DISPLAYBPM;", "", "   \n", "#NOTES:a:b;", "#NOTEDATA:;#chartname;#notes:00;"]
+            "#version:0.7;#ATTACKS:a:b:c;#DISPLAYBPM;", "", "   \n", "#NOTES:a:b;", "#NOTEDATA:;#chartname;#notes:00;",
+            "#VERSION\n#TITLE:a;", "# VERSION:0.83;#TITLE:a;", "#VERSION :0.83;#TITLE:a;\n#NOTEDATA :;#NOTES:0;", "#TITLE:a;#NOTES :a:b:c:d:e:f;"]
     return out
 
 
